@@ -28,7 +28,7 @@ Definition set_eqb {A} (e : A -> A -> bool) (a b : list A) : bool :=
 Definition cls_code (k : option cls) : nat :=
   match k with
   | None => 0
-  | Some K_quoted_space => 1 | Some K_quoted_escape => 2
+  | Some K_none_left => 1
   end.
 
 Definition agrees (exact : bool) (r : store * res * list str) (cur : store) (ro : res) (view : list str) : bool :=
